@@ -230,6 +230,7 @@ V['C15'] = [
     ('fd_weights_all x0 default by truthiness', FB, '    m = len(x)\n    _assert(n < m', '    x0 = x0 or np.mean(x)\n    m = len(x)\n    _assert(n < m', 'F', None),
 ]
 V['C16'] = [
+    ('weight table chopped against its largest entry', FB, '    return weights.T\n', '    weights[np.abs(weights) <= 100 * EPS * np.abs(weights).max()] = 0.0\n    return weights.T\n', 'F', 'R-EXACT'),
     ('interior window one short', FB, 'fx[i - mm:i + mm + 1])', 'fx[i - mm:i + mm])', 'F', None),
     ('right boundary expansion point', FB, 'du[-i - 1] = np.dot(fd_weights(x[-size:], x0=x[-i - 1], n=n), fx[-size:])', 'du[-i - 1] = np.dot(fd_weights(x[-size:], x0=x[-i], n=n), fx[-size:])', 'F', 'R-WINDOW'),
     ('interior range short', FB, '    for i in range(mm, num_x - mm):', '    for i in range(mm, num_x - mm - 1):', 'F', 'R-COVER'),
